@@ -250,6 +250,7 @@ theorem minv_act {O log keys org start} (hO : GoodOrders O) (hS : Scn log keys o
   | tlNext => exact minv_world h _ rfl rfl rfl rfl
   | chTlNext c => exact minv_world h _ rfl rfl rfl rfl
   | extra k ids => exact minv_world h _ rfl rfl rfl rfl
+  | failNext k => exact minv_world h _ rfl rfl rfl rfl
 
 theorem minv_runActions {O log keys org start} (hO : GoodOrders O) (hS : Scn log keys org)
     (acts : List Action) (m : Mgr) (h : MInv O log keys org start m) :
